@@ -1900,13 +1900,19 @@ def _term(res):
     return "(" + " && ".join(ts) + ")" if ts else "true"
 
 
+_TIMEOUTS = [0]
+
+
 def _safe_eval(case):
     try:
         # one case normally takes milliseconds; a library whose walk no longer sees its eos runs to the 'practically
         # infinite' default step limit - that must be a verdict about this case, not a check that hangs
-        with vlib_time_limit(int(os.environ.get("VERIF_CASE_TIMEOUT") or 60), "implementation call"):
+        # (after three such timeouts the budget of a case drops to 5 s: the verdict is established, the run must end)
+        lim = int(os.environ.get("VERIF_CASE_TIMEOUT") or 60) if _TIMEOUTS[0] < 3 else 5
+        with vlib_time_limit(lim, "implementation call"):
             return EVAL[case["api"]](case)
     except ImplTimeout as e:
+        _TIMEOUTS[0] += 1
         return {"terms": [], "spec": [], "nontrivial": False, "impl": "timeout",
                 "fail": [f"implementation did not return ({e}); every path must end at its first eos or at the step limit"]}
     except Exception as e:
